@@ -1,5 +1,6 @@
 """C18 — generated attrs / dataclass models construct from their samples and convert."""
 import copy
+import json
 import math
 
 from .. import common, coqterm as ct, gen, impl, pipeline
@@ -113,10 +114,11 @@ def oracle(samples, o):
         hints = validate.class_hints(cls, m)
         for i, s in enumerate(samples):
             kwargs = {}
-            for k, v in s.items():
+            given = copy.deepcopy(s)            # the object handed to the constructor; must come back unchanged
+            for k, v in given.items():
                 lab = prepare_label(k, convert_unicode=oo["unidecode"], to_snake_case=True)
                 # attrs: a "private" attribute _x is passed to the generated __init__ as x
-                kwargs[lab.lstrip("_") if oo["fw"] == "attrs" and lab.startswith("_") and lab.lstrip("_") else lab] = copy.deepcopy(v)
+                kwargs[lab.lstrip("_") if oo["fw"] == "attrs" and lab.startswith("_") and lab.lstrip("_") else lab] = v
             try:
                 inst = cls(**kwargs)
             except Exception as e:  # noqa
@@ -129,6 +131,9 @@ def oracle(samples, o):
                         if getattr(tt, "__name__", "") in ("BooleanString", "IsoDateString", "IsoTimeString", "IsoDatetimeString"):
                             tags.add("attrs-field-converter-bool-date")
                 return f"constructing Root from sample {i} raises {type(e).__name__}: {str(e)[:160]}", tags, terms
+            if not deep_same(given, s):
+                return (f"constructing Root from sample {i} changed the sample object it was given (the converter works in place): "
+                        f"{json.dumps(given, default=str)[:120]}"), set(), terms
             for k, v in s.items():
                 lab = prepare_label(k, convert_unicode=oo["unidecode"], to_snake_case=True)
                 try:
